@@ -35,7 +35,7 @@ def chk(pid, engine, technique, text, note, design):
 CHECKS = {
  "C17": chk("C17", "stdinsim",
    "deterministic simulation: seeded input texts and read(2) delivery plans with injected read errors (EIO/EINTR/EAGAIN: may surface or be retried, never a wrong line; calls continued after retryable ones) against the real read_line; oracle = split of the text at newlines, chunking independence for texts with CR; a few cases cross-checked through a real pipe into the un-hooked binary",
-   "Seeded search over (input text, how the simulated kernel splits it across read(0) calls, injected read error, script shape incl. unused results behind one or two user functions, a helper declared below its function's return, read_line in a loop condition and a filtering loop on a small frame arena, lines up to 2 MiB); every call's result is compared with the text split at '\\n'. Sampling, not proof: a clean batch is evidence that no chunking within the explored shapes loses, duplicates or reorders bytes.",
+   "Seeded search over (input text, how the simulated kernel splits it across read(0) calls, injected read error, script shape incl. unused results behind one or two user functions, a helper declared below its function's return, read_line in a loop condition and a filtering loop on a small frame arena, lines up to 2 MiB, lines that are not UTF-8, short-circuited calls, a once-per-process first-call probe); every call's result is compared with the text split at '\\n'. Sampling, not proof: a clean batch is evidence that no chunking within the explored shapes loses, duplicates or reorders bytes.",
    "Trusts the stub of the kernel side of fd 0 (fake_libc::read: returns min(count, planned piece, remaining), then 0). CR handling and terminal line discipline are outside the statement and not generated.",
    "DESIGN.md 3.3"),
  "C16": chk("C16", "hostsim",
@@ -65,7 +65,7 @@ CHECKS = {
    "DESIGN.md 3.5"),
  "C14": chk("C14", "sessionsim+clidiff",
    "deterministic simulation of run histories in one process over the process-global scratch arenas with faults between runs (wasm-like no-op decommit, junk scribbling of all dead memory, runs ended early by planted errors), oracle = each program alone on fresh arenas; plus configuration differential of the real naija binary (file/--eval/stdin in seeded chunks) against the library prediction",
-   "Sessions: seeded sequences of generated programs (45 % with a planted lexical/syntax/static/warning/runtime error) through a call-for-call native replica of the playground entry point, stale memory kept and scribbled between runs, every source handed over in the same reused block (equal-length layout twins back to back); every run must equal the same program alone and repeats must be identical. CLI: stdout bytes and exit status of the un-hooked binary equal the library's prediction on the three input routes. Sampling, not proof.",
+   "Sessions: seeded sequences of generated programs (45 % with a planted lexical/syntax/static/warning/runtime error) through a call-for-call native replica of the playground entry point, stale memory kept and scribbled between runs, every source handed over in the same reused block (equal-length layout twins back to back), a quarter of the sessions sharing one simulated standard input; every run must equal the same program alone and repeats must be identical. CLI: stdout bytes and exit status of the un-hooked binary equal the library's prediction on the three input routes. Sampling, not proof.",
    "The playground entry point is a native replica of wasm/src/lib.rs (not compiled here). The CLI part has no fault or schedule beyond stdin chunking and is labelled configuration differential testing.",
    "DESIGN.md 3.7"),
 }
